@@ -832,9 +832,9 @@ class RangePlugin(Plugin):
     (?P<start>
         ('[^']*?'\s+)             # single-quoted
         |                         # or
-        ([^\]}]+?(?=[Tt][Oo]))    # everything until "to"
+        ([^\]}]*?\s(?=[Tt][Oo](?:\s|\]|\})))  # everything until the word "to"
     )?
-    [Tt][Oo]                      # "to"
+    [Tt][Oo](?=\s|\]|\})          # "to"
     (?P<end>
         (\s+'[^']*?')             # single-quoted
         |                         # or
